@@ -106,8 +106,8 @@ def run_drivers(case_file, tag, builds=BUILDS, timeout=1500):
             if os.path.exists(p):
                 os.unlink(p)
         env = dict(os.environ)
-        env["ASAN_OPTIONS"] = "detect_leaks=0:abort_on_error=1:allocator_may_return_null=1:max_allocation_size_mb=3000"
-        env["UBSAN_OPTIONS"] = "halt_on_error=1:print_stacktrace=1"
+        env["ASAN_OPTIONS"] = "detect_leaks=0:abort_on_error=1:allocator_may_return_null=1:max_allocation_size_mb=3000:symbolize=0:fast_unwind_on_fatal=1"
+        env["UBSAN_OPTIONS"] = "halt_on_error=1:print_stacktrace=0"
         cmd = [os.path.join(vlib.BUILD, "bin", target), "--cases", case_file, "--out", outp, "--build", btag, "--alarm", "90" if btag == "san" else "30"]
         procs.append((btag, outp, errp, subprocess.Popen(cmd, stdout=subprocess.PIPE, stderr=open(errp, "w"), env=env, text=True)))
     res = {}
@@ -115,8 +115,12 @@ def run_drivers(case_file, tag, builds=BUILDS, timeout=1500):
         try:
             so, _ = p.communicate(timeout=timeout)
         except subprocess.TimeoutExpired:
+            # our own wall-clock limit: not a verdict about the code and not a broken check - the results logged so far are
+            # judged, the rest of this build's pass is reported as inconclusive in the evidence
             p.kill()
-            raise vlib.Broken("driver build %s timed out" % btag)
+            p.communicate()
+            res[btag] = (outp, {"timeout_s": timeout, "inconclusive": True}, errp)
+            continue
         if p.returncode != 0:
             raise vlib.Broken("driver build %s failed (%d): %s" % (btag, p.returncode, open(errp).read()[-1500:]))
         try:
